@@ -7,6 +7,8 @@ package main
 // and to the model. No sampling: the tie covers the whole language up to the bound.
 
 import (
+	"bytes"
+
 	"sigs.k8s.io/structured-merge-diff/v6/fieldpath"
 
 	"verifharness/internal/gen"
@@ -15,7 +17,7 @@ import (
 
 func init() {
 	register("serx", []string{"C16"},
-		"exhaustive: every string prefix+suffix with prefix in {v:, i:, k:{\"a\":, v:[, v:{\"a\":} and suffix of length 0..4 (quick) / 0..5 (thorough) over the alphabet 1 0 . - e + \" a , } ] and blank, read by DeserializePathElement and by the model; non-trivial = accepted strings; distinct by op line",
+		"exhaustive: every string prefix+suffix with prefix in {v:, i:, k:{\"a\":, v:[, v:{\"a\":} and suffix of length 0..4 (quick) / 0..5 (thorough) over the alphabet 1 0 . - e + \" a , } ] and blank, read by DeserializePathElement and by the model; then every set document of depth <= 2 with at most two members an object (any order, repeats) over the keys f:a f:b i:1 . x:q with values {} / null / a number, read by Set.FromJSON and by the model; non-trivial = accepted inputs; distinct by op line",
 		domSerx)
 }
 
@@ -71,6 +73,67 @@ func domSerx(r *gen.Rng, n int, thorough bool, o *Out) {
 			}
 		}
 		rec(base)
+	}
+	// ---- the tree layer of Set.FromJSON, exhaustively: every document of depth <= 2 whose objects list
+	// at most two members (in any order, with repeats) over the keys f:a, f:b, i:1, "." and the unknown
+	// kind x:q; inner values are {} or null, outer values any inner document, null, or a number
+	keys := []string{"f:a", "f:b", "i:1", ".", "x:q"}
+	var inner []*jtree
+	leafVals := []*jtree{{kind: 'O'}, {kind: 'N'}}
+	inner = append(inner, &jtree{kind: 'O'})
+	for _, k1 := range keys {
+		for _, v1 := range leafVals {
+			inner = append(inner, &jtree{kind: 'O', members: []jmember{{k1, v1}}})
+			for _, k2 := range keys {
+				for _, v2 := range leafVals {
+					inner = append(inner, &jtree{kind: 'O', members: []jmember{{k1, v1}, {k2, v2}}})
+				}
+			}
+		}
+	}
+	outerVals := append(append([]*jtree{}, inner...), &jtree{kind: 'N'}, &jtree{kind: 'X'})
+	emitTree := func(t *jtree) {
+		if count >= n {
+			return
+		}
+		op := "ser.read " + t.enc()
+		res := o.Emit(op, func() string {
+			var buf bytes.Buffer
+			t.render(&buf)
+			var set fieldpath.Set
+			if err := set.FromJSON(bytes.NewReader(buf.Bytes())); err != nil {
+				return "err"
+			}
+			if !wfSet(&set) {
+				o.Fail("C16", "parsed-set-well-formed", buf.String(), "parsed-set-well-formed "+op, op)
+			}
+			return vx.Trie(&set) + " wf=" + vx.Bool(wfSet(&set))
+		})
+		count++
+		if res != "err" {
+			o.Nontrivial(op)
+		}
+		o.Tag("serx:tree=" + map[bool]string{true: "err", false: "ok"}[res == "err"])
+	}
+	emitTree(&jtree{kind: 'O'})
+	for _, k1 := range keys {
+		for _, v1 := range outerVals {
+			emitTree(&jtree{kind: 'O', members: []jmember{{k1, v1}}})
+		}
+	}
+	// two outer members: all pairs when thorough, otherwise the pairs whose second value is small
+	second := outerVals
+	if !thorough {
+		second = []*jtree{{kind: 'O'}, {kind: 'N'}, {kind: 'X'}, inner[1], inner[3], inner[len(inner)-1]}
+	}
+	for _, k1 := range keys {
+		for _, v1 := range outerVals {
+			for _, k2 := range keys {
+				for _, v2 := range second {
+					emitTree(&jtree{kind: 'O', members: []jmember{{k1, v1}, {k2, v2}}})
+				}
+			}
+		}
 	}
 	o.Cases = count
 }
